@@ -5,6 +5,16 @@ ROOT = os.path.dirname(os.path.dirname(os.path.abspath(__file__)))
 
 # id -> (engine, category, technique, level text, level note, design_ref)
 CHECKS = {
+ "C10": ("genlab", "exploration",
+   "Go race detector on race-instrumented generator worker processes + differential comparison of all bytes written across repetitions, GOMAXPROCS settings, process histories and injected delays",
+   "Each document (corpus selection, feature variants including all-features, failing documents interleaved) is generated repeatedly inside worker processes built with -race from the current tree, with GOMAXPROCS in {1,2,16} (quick) / {1,2,3,5,16} (thorough), a different document order per process and PRNG-determined Gosched/sleep at the FileSystem callback between template execution and file write. All runs of a document must write identical bytes and never fail only sometimes; GORACE logs are split into report blocks, deduplicated by top-frame pair, and any block is a violation. Evidence lists the number of distinct file-completion orders observed.",
+   "Schedules are those the scheduler produced; a run in which no document showed more than one completion order is reported inconclusive for the schedule part. Differing error texts of an always-failing document are tallied only.",
+   "DESIGN.md §2 C10"),
+ "C17": ("genlab", "exploration",
+   "differential execution of the real parser+generator on meaning-preserving re-spellings produced by independent serializers (guarded by an independent loader round trip)",
+   "Every document (crafted order/text-sensitive specs, corpus incl. negative ones) is loaded into an ordered tree and re-emitted in 8 spellings (JSON indented/compact/ASCII-escaped, YAML block 2/4, always-quoted, flow, comments+single quotes, anchors+aliases); each spelling that the harness's own loader maps back to the same ordered data is generated with the real generator; written file hashes (or position-stripped diagnostics) must equal those of the original spelling.",
+   "YAML loader of the harness is gopkg.in/yaml.v3 (ogen uses the go-faster fork); diagnostics unstable across three runs of the original spelling are inconclusive for the diagnostic clause.",
+   "DESIGN.md §2 C17"),
  "C13": ("libmon", "exploration",
    "runtime monitor over every encode/decode helper pair (inventory read from the sources with go/parser): round trip, format-syntax recognisers, independent text-to-value recomputation",
    "All 82 helper pairs of conv and json (inventory checked against the source at run time) are driven with exhaustive 8/16-bit integers and booleans, boundary lists plus PRNG values for wider integers, random finite bit patterns and shortest-decimal hard cases for floats, stratified instants over years 0001-9999 in UTC and fixed-offset zones, Unix stamps in each unit, durations, UUIDs, IPs, MACs, URLs and the array variants. Oracle: decode(encode(v)) equals v at the format's resolution, the text matches the format's syntax (RFC 3339, RFC 8259 number, UUID, Go duration) and denotes the value.",
